@@ -287,6 +287,9 @@ func checkG2(prop, tier string) int {
 				root := pool.RunOne(Job{Kind: "g2", Data: mustJSON(g2Job{Prop: prop, Tier: tier, Prog: pi, Bound: bound, Desc: desc})})
 				var rr g2Res
 				if root.Crashed || root.Err != "" || json.Unmarshal(root.Data, &rr) != nil {
+					if v := crashViolation(pool, prop, Job{Kind: "g2", Data: mustJSON(g2Job{Prop: prop, Tier: tier, Prog: pi, Bound: bound, Desc: desc})}, root); v != nil && (root.Crashed || root.Err != "") {
+						viols = append(viols, *v)
+					}
 					infra++
 					fmt.Fprintf(os.Stderr, "INFRA: g2 root %s/%s: %s %s\n", prop, p.Name, root.Err, tail(root.Stderr, 800))
 					complete = false
@@ -305,6 +308,11 @@ func checkG2(prop, tier string) int {
 						continue
 					}
 					var cr g2Res
+					if r.Crashed || r.Err != "" {
+						if v := crashViolation(pool, prop, jobs[i], r); v != nil {
+							viols = append(viols, *v)
+						}
+					}
 					if r.Crashed || r.Err != "" || json.Unmarshal(r.Data, &cr) != nil {
 						// a crashed subtree: re-run its first schedule alone to see whether it is a hang/crash of moss
 						infra++
